@@ -86,6 +86,7 @@ type Scenario struct {
 	Actors     bool       `json:"actors,omitempty"` // attach observer actors to every table update (C20)
 	Bots       bool       `json:"bots,omitempty"`   // every seated player is a real botRunner; the driver only sends settlement-finish signals (C18)
 	Interval   int        `json:"interval,omitempty"`
+	SlowAct    int        `json:"slowact,omitempty"` // the action listener takes this many milliseconds
 }
 
 // ---- driver -------------------------------------------------------------------------
@@ -289,6 +290,11 @@ func NewTD(rec *Recorder, sc *Scenario) *TD {
 		a.ID, a.Seat, a.Kind, a.Amt, a.Round, a.Gc = ga.PlayerID, ga.Seat, ga.Action, ga.Chips, ga.Round, ga.GameCount
 		a.Gid = d.rec.gidLocked(ga.GameID)
 		d.rec.Emit("cb:action", a, "", te, nil, nil, false)
+		if d.sc.SlowAct > 0 {
+			// a slow application listener: the call that made the action is still inside the engine while the hand
+			// updater is free to run on
+			time.Sleep(time.Duration(d.sc.SlowAct) * time.Millisecond)
+		}
 	})
 	te.OnAutoGameOpenEnd(func(c, tid string) {
 		if !d.isDead() {
